@@ -2,6 +2,7 @@ package main
 
 import (
 	"fmt"
+	"go/token"
 	"go/types"
 	"strings"
 
@@ -9,7 +10,7 @@ import (
 )
 
 func init() {
-	register("C11", "Ownership and write-effect analysis: (R1) no instruction in any function reachable from the read-only API (Validate, Walk, every rule, VariableValues, ArgumentMap, Value.Value, the formatter, the ast read helpers) stores through an address that may be schema memory — by type (Schema, Definition, FieldDefinition, ArgumentDefinition, EnumValueDefinition, DirectiveDefinition), by derivation from such a value, or through a document field that links into the schema (ExpectedType, Definition, ObjectDefinition, ...) — directly or by passing it to a callee whose mod-summary writes that parameter; (R2) none of them writes a package-level variable; (R3) rule state is per Validate call. Decides data-race freedom on the schema and its immutability for all schedules and histories; aliasing created through reflection is outside the analysis (checked: no schema value reaches reflect). (R4) no process-wide state: package-level variables are only loaded outside initialisers and the registry functions.", runC11)
+	register("C11", "Ownership and write-effect analysis: (R1) no instruction in any function reachable from the read-only API (Validate, Walk, every rule, VariableValues, ArgumentMap, Value.Value, the formatter, the ast read helpers) stores through an address that may be schema memory — by type (Schema, Definition, FieldDefinition, ArgumentDefinition, EnumValueDefinition, DirectiveDefinition), by derivation from such a value, or through a document field that links into the schema (ExpectedType, Definition, ObjectDefinition, ...) — directly or by passing it to a callee whose mod-summary writes that parameter; (R2) none of them writes a package-level variable; (R3) rule state is per Validate call. Decides data-race freedom on the schema and its immutability for all schedules and histories; aliasing created through reflection is outside the analysis (checked: no schema value reaches reflect). (R4) no process-wide state: package-level variables are only loaded outside initialisers and the registry functions. (R5) no shallow copy of a schema-owned struct is stored into another object.", runC11)
 }
 
 // readOnlyRoots returns the API a shared schema may be used through concurrently.
@@ -163,6 +164,10 @@ func runC11(c *Ctx) {
 	r3 := c.Rule("R3", "per-call state: a rule's observers capture only variables created inside its RuleFunc invocation, and read no package-level variable that anything writes after init", 1)
 	c11PerCallState(c, r3, scope)
 
+	// ---- R5 no shallow copy of schema memory is planted into a document
+	r5 := c.Rule("R5", "no shallow copy of a schema-owned struct is stored into another object", 1)
+	c11ShallowCopies(c, r5, e, scope)
+
 	r4 := c.Rule("R4", "no process-wide state: package-level variables are only read after init (rule registry excepted)", 1)
 	noProcessState(c, r4, nil)
 }
@@ -286,4 +291,86 @@ func loaderOnly(p *Program) map[*ssa.Function]bool {
 	}
 	loaderOnlyMemo = out
 	return out
+}
+
+// c11ShallowCopies: `tmp := *p` where p points into the schema copies the struct but shares everything it refers to
+// (child lists, element types). Kept in a local and read, that is harmless. Once the address of such a copy is stored
+// into another object — appended to a document's child list, put into a node — the document refers to schema memory
+// through an alias the ownership analysis (type- and field-based) can no longer see, and the walker's annotations or a
+// rule's edits land in the schema. Reported where the copy's address is stored.
+func c11ShallowCopies(c *Ctx, r *RuleResult, e *effects, scope map[*ssa.Function]bool) {
+	p := c.P
+	n := 0
+	hasRefField := func(t types.Type) bool {
+		st, ok := t.Underlying().(*types.Struct)
+		if !ok {
+			return false
+		}
+		for i := 0; i < st.NumFields(); i++ {
+			if isRefType(st.Field(i).Type()) {
+				return true
+			}
+		}
+		return false
+	}
+	for fn := range scope {
+		if !p.inModule(fn) {
+			continue
+		}
+		allInstrs(fn, func(in ssa.Instruction) {
+			a, ok := in.(*ssa.Alloc)
+			if !ok || !a.Heap {
+				return
+			}
+			pt, ok := a.Type().Underlying().(*types.Pointer)
+			if !ok || !hasRefField(pt.Elem()) {
+				return
+			}
+			// filled by a whole-struct copy from owned memory?
+			var why string
+			for _, ref := range *a.Referrers() {
+				st, ok := ref.(*ssa.Store)
+				if !ok || st.Addr != ssa.Value(a) {
+					continue
+				}
+				u, ok := st.Val.(*ssa.UnOp)
+				if !ok || u.Op != token.MUL {
+					continue
+				}
+				if w := e.own.ownedReason(u.X); w != "" {
+					why = w
+				}
+			}
+			if why == "" {
+				return
+			}
+			n++
+			// is the copy's address stored into another object?
+			var planted ssa.Instruction
+			for _, ref := range *a.Referrers() {
+				switch x := ref.(type) {
+				case *ssa.Store:
+					if x.Val == ssa.Value(a) {
+						planted = x
+					}
+				case *ssa.MakeInterface:
+					// boxed and stored
+					for _, r2 := range *x.Referrers() {
+						if st2, ok := r2.(*ssa.Store); ok && st2.Val == ssa.Value(x) {
+							planted = st2
+						}
+					}
+				}
+			}
+			site := fmt.Sprintf("copy of a schema struct in %s at %s", p.FuncName(fn), p.Pos(a.Pos()))
+			if planted != nil {
+				r.Fail(planted.Pos(), p.FuncName(fn), "shallow copy of schema memory stored into another object ("+a.Comment+")", "the struct copied from the schema ("+why+") shares its child lists and nested pointers with the schema; its address is stored into another object here, so code that annotates or edits that object writes into the loaded schema — unseen by every other check, and a data race between concurrent validations")
+			} else {
+				r.OK(site, "stays local: read or passed to calls only")
+			}
+		})
+	}
+	if n == 0 {
+		r.OK("no whole-struct copy from schema memory into an escaping local in the read-only scope", "")
+	}
 }
